@@ -65,6 +65,11 @@ func runBalanceCase(c *core.Ctx, kind string) {
 }
 
 func runC07(c *core.Ctx) {
+	if plans := exhaustivePlans(c.Tier); c.Index < len(plans) {
+		p := plans[c.Index]
+		exhaustiveTree(c, p.label, p.mk, p.k, 400000, func(m *KVMon[int, int]) { m.Balance = true }, nil)
+		return
+	}
 	runBalanceCase(c, balKinds[c.Index%len(balKinds)])
 }
 
@@ -81,7 +86,8 @@ func init() {
 			}
 			return 3 * time.Minute
 		},
-		Rule: "RedBlackTree, AVLTree, BTree (orders 3..12,16,32,64) under sorted, reverse, zig-zag, middle-out, block and random builds, drains in the same families, churn, sliding windows (up to 10^4 steps quick / 10^5 thorough), one-sided drains; n up to 3000 (quick) / 20000 (thorough). " +
+		Rule: "the first cases explore small key universes exhaustively (every reachable tree state x every Put/Remove, see exhaustive_small_scope) under the work and shape oracles; the others run " +
+			"RedBlackTree, AVLTree, BTree (orders 3..12,16,32,64) under sorted, reverse, zig-zag, middle-out, block and random builds, drains in the same families, churn, sliding windows (up to 10^4 steps quick / 10^5 thorough), one-sided drains; n up to 3000 (quick) / 20000 (thorough). " +
 			"Every Get/Put/Remove is measured with a counting comparator against the stated per-call bound (n = larger of the sizes before and after); the exported structure is walked after every call while n <= 300 and every 16th call above. " +
 			"Every case is non-trivial (>= 50 measured calls); distinct = distinct hash of the call list.",
 		Floors: func(tier string, m map[string]int64) []string {
@@ -92,6 +98,7 @@ func init() {
 				f.atLeast("work:"+k+".Get", 10000)
 				f.atLeast("walk:"+k, 30000)
 			}
+			exhaustiveFloors(tier, f)
 			f.atLeast("walk:BTree-height>=4", 1000)
 			f.atLeast("walk:RedBlackTree-ratio>1.5", 100)
 			return f.missing
